@@ -56,8 +56,9 @@ CONSTANTS
   MaxTimeouts,
   EnvAtQuiet,   \* TRUE: environment steps only when the proxy is at rest (replayable behaviours)
   GenNoFaults,  \* generation only: TRUE switches the failing environment choices off
-  GenHold       \* generation only: relayed connections end only while at least GenHold are open
-                \* (or the session bound is exhausted); 0 = no restriction
+  GenHold,      \* generation only: relayed connections end only while a poll that reported a load
+                \* >= GenHold is held (or the session bound is exhausted); 0 = no restriction
+  MaxPhantom    \* slots the environment may occupy itself (the in-package rig calling tokens.get()); 0 = none
 
 VARIABLES
   inUse,        \* len(tokens.ch)
@@ -74,10 +75,11 @@ VARIABLES
   relayDialed,  \* set of URL classes handed to websocket.Dial
   reported,     \* last poll: [val |-> Clients field, inUse |-> len(ch) at that moment]
   nNoOffer, nTimeouts,
+  phantom,      \* slots currently held by the environment itself ("phantom sessions" of the rig)
   pcase         \* policy-table emission only (see PolicyInit)
 
 vars == <<inUse, clients, mpc, cur, cls, sdp, hpc, released, owner, opened, closed,
-          relayDialed, reported, nNoOffer, nTimeouts, pcase>>
+          relayDialed, reported, nNoOffer, nTimeouts, phantom, pcase>>
 
 Sessions == 1..MaxSess
 
@@ -165,6 +167,7 @@ InitCore ==
   /\ relayDialed = {}
   /\ reported = [val |-> 0, inUse |-> 0]
   /\ nNoOffer = 0 /\ nTimeouts = 0
+  /\ phantom = 0
 Init == InitCore /\ pcase = <<>>
 
 (* The proxy is at rest: every goroutine is parked on something only the
@@ -180,63 +183,63 @@ Quiet == MainParked /\ \A s \in Sessions : HandlerParked(s)
 EnvOK == (~EnvAtQuiet) \/ Quiet
 FaultOK == ~GenNoFaults
 Relaying == {s \in Sessions : hpc[s] = "relaying"}
-HoldOK == GenHold = 0 \/ Cardinality(Relaying) >= GenHold \/ (cur = MaxSess /\ mpc = "tick")
+HoldOK == GenHold = 0 \/ (mpc = "polled" /\ reported.val >= GenHold) \/ (cur = MaxSess /\ mpc = "tick")
 
 (* ---- main loop ---- *)
 GetInc ==                                   \* tokens.get(): atomic add, before blocking
   /\ mpc = "tick" /\ cur < MaxSess
   /\ clients' = clients + 1 /\ mpc' = "get"
-  /\ UNCHANGED <<inUse, cur, cls, sdp, hpc, released, owner, opened, closed, relayDialed, reported, nNoOffer, nTimeouts, pcase>>
+  /\ UNCHANGED <<inUse, cur, cls, sdp, hpc, released, owner, opened, closed, relayDialed, reported, nNoOffer, nTimeouts, phantom, pcase>>
 
 Get ==                                      \* tokens.get(): channel send; blocks at capacity
   /\ mpc = "get" /\ inUse < N
   /\ inUse' = inUse + 1 /\ cur' = cur + 1 /\ mpc' = "poll"
-  /\ UNCHANGED <<clients, cls, sdp, hpc, released, owner, opened, closed, relayDialed, reported, nNoOffer, nTimeouts, pcase>>
+  /\ UNCHANGED <<clients, cls, sdp, hpc, released, owner, opened, closed, relayDialed, reported, nNoOffer, nTimeouts, phantom, pcase>>
 
 Poll ==                                     \* pollOffer: numClients := (count()/8)*8 ; POST /proxy
   /\ mpc = "poll"
   /\ reported' = [val |-> Round * (clients \div Round), inUse |-> inUse]
   /\ mpc' = "polled"
-  /\ UNCHANGED <<inUse, clients, cur, cls, sdp, hpc, released, owner, opened, closed, relayDialed, nNoOffer, nTimeouts, pcase>>
+  /\ UNCHANGED <<inUse, clients, cur, cls, sdp, hpc, released, owner, opened, closed, relayDialed, nNoOffer, nTimeouts, phantom, pcase>>
 
 NoOffer ==                                  \* "no match": stay in pollOffer, poll again after 5 s
   /\ mpc = "polled" /\ EnvOK /\ nNoOffer < MaxNoOffer
   /\ mpc' = "poll" /\ nNoOffer' = nNoOffer + 1
-  /\ UNCHANGED <<inUse, clients, cur, cls, sdp, hpc, released, owner, opened, closed, relayDialed, reported, nTimeouts, pcase>>
+  /\ UNCHANGED <<inUse, clients, cur, cls, sdp, hpc, released, owner, opened, closed, relayDialed, reported, nTimeouts, phantom, pcase>>
 
 ToRet == mpc' = "ret"
 
 BadBrokerResponse ==                        \* HTTP error, malformed JSON, error status, match without offer
   /\ mpc = "polled" /\ EnvOK /\ FaultOK /\ ToRet
-  /\ UNCHANGED <<inUse, clients, cur, cls, sdp, hpc, released, owner, opened, closed, relayDialed, reported, nNoOffer, nTimeouts, pcase>>
+  /\ UNCHANGED <<inUse, clients, cur, cls, sdp, hpc, released, owner, opened, closed, relayDialed, reported, nNoOffer, nTimeouts, phantom, pcase>>
 
 OfferUndecodable ==                         \* offer string that DeserializeSessionDescription refuses
   /\ mpc = "polled" /\ EnvOK /\ FaultOK /\ ToRet
-  /\ UNCHANGED <<inUse, clients, cur, cls, sdp, hpc, released, owner, opened, closed, relayDialed, reported, nNoOffer, nTimeouts, pcase>>
+  /\ UNCHANGED <<inUse, clients, cur, cls, sdp, hpc, released, owner, opened, closed, relayDialed, reported, nNoOffer, nTimeouts, phantom, pcase>>
 
 Offer(c, k) ==                              \* client match with relay URL class c and SDP kind k
   /\ mpc = "polled" /\ EnvOK /\ (k = "good" \/ FaultOK)
   /\ cls' = [cls EXCEPT ![cur] = c] /\ sdp' = [sdp EXCEPT ![cur] = k]
   /\ mpc' = "check"
-  /\ UNCHANGED <<inUse, clients, cur, hpc, released, owner, opened, closed, relayDialed, reported, nNoOffer, nTimeouts, pcase>>
+  /\ UNCHANGED <<inUse, clients, cur, hpc, released, owner, opened, closed, relayDialed, reported, nNoOffer, nTimeouts, phantom, pcase>>
 
 RelayRejected(c) ==                         \* runSession: bad or rejected Relay URL
   /\ mpc = "check" /\ cls[cur] = c /\ ~CodeAccepts(c) /\ ToRet
-  /\ UNCHANGED <<inUse, clients, cur, cls, sdp, hpc, released, owner, opened, closed, relayDialed, reported, nNoOffer, nTimeouts, pcase>>
+  /\ UNCHANGED <<inUse, clients, cur, cls, sdp, hpc, released, owner, opened, closed, relayDialed, reported, nNoOffer, nTimeouts, phantom, pcase>>
 
 RelayOK ==
   /\ mpc = "check" /\ CodeAccepts(cls[cur]) /\ mpc' = "pc"
-  /\ UNCHANGED <<inUse, clients, cur, cls, sdp, hpc, released, owner, opened, closed, relayDialed, reported, nNoOffer, nTimeouts, pcase>>
+  /\ UNCHANGED <<inUse, clients, cur, cls, sdp, hpc, released, owner, opened, closed, relayDialed, reported, nNoOffer, nTimeouts, phantom, pcase>>
 
 PCFail ==                                   \* makePeerConnectionFromOffer fails (SetRemoteDescription)
   /\ mpc = "pc" /\ sdp[cur] = "bad" /\ ToRet
   /\ sdp' = [sdp EXCEPT ![cur] = "-"]
-  /\ UNCHANGED <<inUse, clients, cur, cls, hpc, released, owner, opened, closed, relayDialed, reported, nNoOffer, nTimeouts, pcase>>
+  /\ UNCHANGED <<inUse, clients, cur, cls, hpc, released, owner, opened, closed, relayDialed, reported, nNoOffer, nTimeouts, phantom, pcase>>
 
 PCOk ==                                     \* answer created and POSTed to /answer
   /\ mpc = "pc" /\ sdp[cur] = "good" /\ mpc' = "answer"
   /\ sdp' = [sdp EXCEPT ![cur] = "-"]
-  /\ UNCHANGED <<inUse, clients, cur, cls, hpc, released, owner, opened, closed, relayDialed, reported, nNoOffer, nTimeouts, pcase>>
+  /\ UNCHANGED <<inUse, clients, cur, cls, hpc, released, owner, opened, closed, relayDialed, reported, nNoOffer, nTimeouts, phantom, pcase>>
 
 (* runSession gives the slot up (answer failure, timeout).  Pinned code:
    always ret().  Repaired code: ret() only if the handler has not claimed
@@ -249,35 +252,35 @@ MainGiveUp ==
 
 AnswerFail ==                               \* "client gone", HTTP error or garbage on /answer ; pc.Close()
   /\ mpc = "answer" /\ EnvOK /\ FaultOK /\ MainGiveUp
-  /\ UNCHANGED <<inUse, clients, cur, cls, sdp, hpc, released, opened, relayDialed, reported, nNoOffer, nTimeouts, pcase>>
+  /\ UNCHANGED <<inUse, clients, cur, cls, sdp, hpc, released, opened, relayDialed, reported, nNoOffer, nTimeouts, phantom, pcase>>
 
 AnswerOK ==
   /\ mpc = "answer" /\ EnvOK /\ mpc' = "waitdc"
-  /\ UNCHANGED <<inUse, clients, cur, cls, sdp, hpc, released, owner, opened, closed, relayDialed, reported, nNoOffer, nTimeouts, pcase>>
+  /\ UNCHANGED <<inUse, clients, cur, cls, sdp, hpc, released, owner, opened, closed, relayDialed, reported, nNoOffer, nTimeouts, phantom, pcase>>
 
 DCSeen ==                                   \* select: <-dataChan ; "Connection successful."
   /\ mpc = "waitdc" /\ opened[cur] /\ mpc' = "tick"
-  /\ UNCHANGED <<inUse, clients, cur, cls, sdp, hpc, released, owner, opened, closed, relayDialed, reported, nNoOffer, nTimeouts, pcase>>
+  /\ UNCHANGED <<inUse, clients, cur, cls, sdp, hpc, released, owner, opened, closed, relayDialed, reported, nNoOffer, nTimeouts, phantom, pcase>>
 
 DCTimerFire ==                              \* select: <-time.After(20 s) chosen
   /\ mpc = "waitdc" /\ EnvOK /\ nTimeouts < MaxTimeouts
   /\ mpc' = "dctimeout" /\ nTimeouts' = nTimeouts + 1
-  /\ UNCHANGED <<inUse, clients, cur, cls, sdp, hpc, released, owner, opened, closed, relayDialed, reported, nNoOffer, pcase>>
+  /\ UNCHANGED <<inUse, clients, cur, cls, sdp, hpc, released, owner, opened, closed, relayDialed, reported, nNoOffer, phantom, pcase>>
 
 DCTimeoutRelease ==                         \* pc.Close() ; tokens.ret()
   /\ mpc = "dctimeout" /\ MainGiveUp
-  /\ UNCHANGED <<inUse, clients, cur, cls, sdp, hpc, released, opened, relayDialed, reported, nNoOffer, nTimeouts, pcase>>
+  /\ UNCHANGED <<inUse, clients, cur, cls, sdp, hpc, released, opened, relayDialed, reported, nNoOffer, nTimeouts, phantom, pcase>>
 
 MainReleaseDec ==                           \* tokens.ret(): atomic add
   /\ mpc = "ret"
   /\ clients' = clients - 1 /\ released' = [released EXCEPT ![cur] = @ + 1]
   /\ mpc' = "ret2"
-  /\ UNCHANGED <<inUse, cur, cls, sdp, hpc, owner, opened, closed, relayDialed, reported, nNoOffer, nTimeouts, pcase>>
+  /\ UNCHANGED <<inUse, cur, cls, sdp, hpc, owner, opened, closed, relayDialed, reported, nNoOffer, nTimeouts, phantom, pcase>>
 
 MainReleaseTake ==                          \* tokens.ret(): channel receive; blocks on an empty channel
   /\ mpc = "ret2" /\ inUse > 0
   /\ inUse' = inUse - 1 /\ mpc' = "tick"
-  /\ UNCHANGED <<clients, cur, cls, sdp, hpc, released, owner, opened, closed, relayDialed, reported, nNoOffer, nTimeouts, pcase>>
+  /\ UNCHANGED <<clients, cur, cls, sdp, hpc, released, owner, opened, closed, relayDialed, reported, nNoOffer, nTimeouts, phantom, pcase>>
 
 (* ---- data channel callback and handler goroutine ---- *)
 (* OnDataChannel: close(dataChan) ; go handler(...).  Possible from the moment
@@ -292,7 +295,7 @@ DCOpen(s) ==
   /\ hpc[s] = "none" /\ ~opened[s]
   /\ opened' = [opened EXCEPT ![s] = TRUE]
   /\ hpc' = [hpc EXCEPT ![s] = "spawned"]
-  /\ UNCHANGED <<inUse, clients, mpc, cur, cls, sdp, released, owner, closed, relayDialed, reported, nNoOffer, nTimeouts, pcase>>
+  /\ UNCHANGED <<inUse, clients, mpc, cur, cls, sdp, released, owner, closed, relayDialed, reported, nNoOffer, nTimeouts, phantom, pcase>>
 
 HandlerStart(s) ==                          \* repaired code: claim the slot or stand down
   /\ hpc[s] = "spawned"
@@ -300,40 +303,56 @@ HandlerStart(s) ==                          \* repaired code: claim the slot or 
      ELSE IF owner[s] = "none"
        THEN hpc' = [hpc EXCEPT ![s] = "dial"] /\ owner' = [owner EXCEPT ![s] = "handler"]
        ELSE hpc' = [hpc EXCEPT ![s] = "done"] /\ UNCHANGED owner
-  /\ UNCHANGED <<inUse, clients, mpc, cur, cls, sdp, released, opened, closed, relayDialed, reported, nNoOffer, nTimeouts, pcase>>
+  /\ UNCHANGED <<inUse, clients, mpc, cur, cls, sdp, released, opened, closed, relayDialed, reported, nNoOffer, nTimeouts, phantom, pcase>>
 
 HandlerDial(s) ==                           \* websocket.DefaultDialer.Dial(relay URL)
   /\ hpc[s] = "dial"
   /\ relayDialed' = relayDialed \cup {cls[s]}
   /\ hpc' = [hpc EXCEPT ![s] = "dialing"]
-  /\ UNCHANGED <<inUse, clients, mpc, cur, cls, sdp, released, owner, opened, closed, reported, nNoOffer, nTimeouts, pcase>>
+  /\ UNCHANGED <<inUse, clients, mpc, cur, cls, sdp, released, owner, opened, closed, reported, nNoOffer, nTimeouts, phantom, pcase>>
 
 RelayDialFail(s) ==
   /\ hpc[s] = "dialing" /\ EnvOK /\ FaultOK
   /\ hpc' = [hpc EXCEPT ![s] = "ret"]
-  /\ UNCHANGED <<inUse, clients, mpc, cur, cls, sdp, released, owner, opened, closed, relayDialed, reported, nNoOffer, nTimeouts, pcase>>
+  /\ UNCHANGED <<inUse, clients, mpc, cur, cls, sdp, released, owner, opened, closed, relayDialed, reported, nNoOffer, nTimeouts, phantom, pcase>>
 
 RelayAccept(s) ==
   /\ hpc[s] = "dialing" /\ EnvOK
   /\ hpc' = [hpc EXCEPT ![s] = "relaying"]
-  /\ UNCHANGED <<inUse, clients, mpc, cur, cls, sdp, released, owner, opened, closed, relayDialed, reported, nNoOffer, nTimeouts, pcase>>
+  /\ UNCHANGED <<inUse, clients, mpc, cur, cls, sdp, released, owner, opened, closed, relayDialed, reported, nNoOffer, nTimeouts, phantom, pcase>>
 
 RelayEnd(s) ==                              \* relay or client closes; copyLoop ends
   /\ hpc[s] = "relaying" /\ ((EnvOK /\ HoldOK) \/ s \in closed)   \* a closed peer connection ends the copy loop by itself
   /\ hpc' = [hpc EXCEPT ![s] = "ret"]
-  /\ UNCHANGED <<inUse, clients, mpc, cur, cls, sdp, released, owner, opened, closed, relayDialed, reported, nNoOffer, nTimeouts, pcase>>
+  /\ UNCHANGED <<inUse, clients, mpc, cur, cls, sdp, released, owner, opened, closed, relayDialed, reported, nNoOffer, nTimeouts, phantom, pcase>>
 
 HandlerReleaseDec(s) ==                     \* deferred tokens.ret(): atomic add
   /\ hpc[s] = "ret"
   /\ clients' = clients - 1 /\ released' = [released EXCEPT ![s] = @ + 1]
   /\ hpc' = [hpc EXCEPT ![s] = "ret2"]
-  /\ UNCHANGED <<inUse, mpc, cur, cls, sdp, owner, opened, closed, relayDialed, reported, nNoOffer, nTimeouts, pcase>>
+  /\ UNCHANGED <<inUse, mpc, cur, cls, sdp, owner, opened, closed, relayDialed, reported, nNoOffer, nTimeouts, phantom, pcase>>
 
 HandlerReleaseTake(s) ==                    \* deferred tokens.ret(): channel receive
   /\ hpc[s] = "ret2" /\ inUse > 0
   /\ inUse' = inUse - 1
   /\ hpc' = [hpc EXCEPT ![s] = "done"]
-  /\ UNCHANGED <<clients, mpc, cur, cls, sdp, released, owner, opened, closed, relayDialed, reported, nNoOffer, nTimeouts, pcase>>
+  /\ UNCHANGED <<clients, mpc, cur, cls, sdp, released, owner, opened, closed, relayDialed, reported, nNoOffer, nTimeouts, phantom, pcase>>
+
+(* ---- phantom sessions ----
+   The in-package rig may occupy slots itself by calling tokens.get() /
+   tokens.ret() (recorded through the same tok.* hooks).  It does so only
+   while the main loop is parked in a poll request it holds, and never at
+   capacity, so neither call blocks and each is one step here.  This makes
+   "eight slots in use" reachable in seconds instead of eight real sessions. *)
+PhantomGet ==
+  /\ mpc = "polled" /\ EnvOK /\ phantom < MaxPhantom /\ inUse < N
+  /\ clients' = clients + 1 /\ inUse' = inUse + 1 /\ phantom' = phantom + 1
+  /\ UNCHANGED <<mpc, cur, cls, sdp, hpc, released, owner, opened, closed, relayDialed, reported, nNoOffer, nTimeouts, pcase>>
+
+PhantomRet ==
+  /\ mpc = "polled" /\ EnvOK /\ phantom > 0
+  /\ clients' = clients - 1 /\ inUse' = inUse - 1 /\ phantom' = phantom - 1
+  /\ UNCHANGED <<mpc, cur, cls, sdp, hpc, released, owner, opened, closed, relayDialed, reported, nNoOffer, nTimeouts, pcase>>
 
 (* All sessions of the bound are over and the loop is back at its ticker. *)
 AllOver == cur = MaxSess /\ mpc = "tick" /\ \A s \in Sessions : hpc[s] \in {"none", "done"}
@@ -347,6 +366,7 @@ ProxyStep ==
 
 EnvStep ==
   \/ NoOffer \/ BadBrokerResponse \/ OfferUndecodable \/ AnswerFail \/ AnswerOK \/ DCTimerFire
+  \/ PhantomGet \/ PhantomRet
   \/ (\E c \in Classes, k \in {"good", "bad"} : Offer(c, k))
   \/ (\E s \in Sessions : DCOpen(s) \/ RelayDialFail(s) \/ RelayAccept(s) \/ RelayEnd(s))
 
@@ -380,6 +400,7 @@ TypeOK ==
   /\ owner \in [Sessions -> {"none", "main", "handler"}]
   /\ opened \in [Sessions -> BOOLEAN]
   /\ closed \subseteq Sessions
+  /\ phantom \in 0..MaxPhantom
   /\ relayDialed \subseteq AllClasses
 
 (* the main loop has left session s *)
@@ -394,7 +415,7 @@ Serving(s) ==
   \/ hpc[s] \in {"dial", "dialing", "relaying"}
 
 SlotRange == 0 <= inUse /\ inUse <= N
-CapacityHonoured == Cardinality({s \in Sessions : Serving(s)}) <= N
+CapacityHonoured == Cardinality({s \in Sessions : Serving(s)}) + phantom <= N
 ReleasedAtMostOnce == \A s \in Sessions : released[s] <= 1
 ReleasedAtEnd == \A s \in Sessions : Ended(s) => released[s] = 1
 (* a slot is never given back while its session is still negotiated or served *)
@@ -408,8 +429,8 @@ ReportedOK == reported.val % Round = 0 /\ reported.val >= 0 /\ reported.val <= r
 RelayPolicy == relayDialed \subseteq {c \in AllClasses : Accepted(Pattern, AllowNonTLS, c)}
 (* after any sequence of sessions the loop polls with full capacity: only its own slot is taken *)
 FullCapacityAgain ==
-  /\ ((mpc \in {"poll", "polled"} /\ \A s \in 1..(cur - 1) : Ended(s)) => (inUse = 1 /\ clients = 1))
-  /\ (AllOver => (inUse = 0 /\ clients = 0))
+  /\ ((mpc \in {"poll", "polled"} /\ \A s \in 1..(cur - 1) : Ended(s)) => (inUse = 1 + phantom /\ clients = 1 + phantom))
+  /\ (AllOver => (inUse = phantom /\ clients = phantom))
 
 (* the loop always comes back to polling (or exhausts the session bound) *)
 (* some goroutine waits for the environment (broker reply, client, relay) *)
